@@ -57,7 +57,20 @@ SVG = "{http://www.w3.org/2000/svg}"
 
 
 def output_ok(svg_text: str) -> Optional[str]:
-    """None if svg_text satisfies the (minimal) picosvg grammar, else a reason."""
+    """None if svg_text satisfies the picosvg grammar, else a reason.  The minimal structural predicate below
+    is followed by the full README-grammar validator shared with C01."""
+    r = _output_ok_minimal(svg_text)
+    if r:
+        return r
+    from vlib.props.pico_grammar import validate
+
+    # a gradient that has no stops in the (hostile) source has none in the output either: that is the
+    # input's degeneracy, not an invention of the conversion, so that clause is not applied here
+    bad = [b for b in validate(svg_text, 3, False) if b[0] != "gradient-stops"]
+    return f"{bad[0][0]}: {bad[0][1]}" if bad else None
+
+
+def _output_ok_minimal(svg_text: str) -> Optional[str]:
     if "<!--" in svg_text:
         return "contains a comment"
     if "<!DOCTYPE" in svg_text or "<!ENTITY" in svg_text:
